@@ -1,4 +1,5 @@
 import Prom.HP.Order
+import Prom.Lemmas.HistCuts
 /-
 C03 — Histograms conserve observations across any sequence of collects and flushes.
 Same model as C02 (`Prom/HP`); this is its history side.
@@ -65,5 +66,26 @@ theorem collect_progress {k : Nat} {s : St} (h : Reach k s) (pre post : List Tas
   obtain ⟨fr, ⟨e1, _⟩, _⟩ := ph
   have hov : ov = totW (s.asg cold) := fr.2.1
   exact ⟨_, Step.spinOk s pre post cold ov S ht (by omega)⟩
+
+/-- **replay_conserves** — for the replayed implementation: whenever the collect lock is free, the
+    observation counter of the machine equals the total weight of everything claimed so far, the
+    drained shard is empty, and once no observer is in flight on the hot shard the hot shard holds
+    exactly all claimed observations (what a final collect, `get_sample_count` and `get_sample_sum`
+    then report). -/
+theorem replay_conserves {bounds : List UInt64} {prog : List (List String)} {s : HM.St}
+    (h : HM.MReach bounds prog s) (hl : s.core.lock = false) :
+    s.core.n = totW s.core.claimed ∧
+    (∀ c, (s.core.sh (!s.core.hot)).cell c = 0) ∧ (s.core.sh (!s.core.hot)).count = 0 ∧
+    (pendW s.core.hot (HM.abs s).tasks = 0 →
+      (s.core.sh s.core.hot).count = totW s.core.claimed ∧ ∀ c, (s.core.sh s.core.hot).cell c = tot s.core.claimed c) := by
+  have hr := HM.mreach_reach h
+  have q := Hp.quiescent_total hr (by simpa [HM.abs] using hl)
+  have m := ((inv_reach hr).normal (by simpa [HM.abs] using hl)).1
+  exact ⟨q.1, m.2.2.2, m.2.2.1, q.2⟩
+
+/-- snapshots returned during a replay are nested in return order -/
+theorem replay_snapshots_grow {bounds : List UInt64} {prog : List (List String)} {s : HM.St}
+    (h : HM.MReach bounds prog s) : s.core.snaps.Pairwise (fun p q => p.2 <+: q.2) :=
+  (ord_reach (HM.mreach_reach h)).chain
 
 end Prom.C03
